@@ -24,8 +24,8 @@ of visit.  What holds for every input is proved here, at the level of the assign
 * one linker step (`Model/Linker`): a permutation of the destinations `dsts` of a level renumbers
   the destination ids of every candidate list (`candsOf_renumber`, `stepCands_perm_dsts`), so the
   optimal cost of the step over all sources of the level is unchanged
-  (`step_cost_perm_dsts_partial`; the per-sub-net multiset form needs the equivariance of
-  `subnets`, not proved).
+  (`step_cost_perm_dsts_partial`; the per-sub-net multiset form, via the equivariance of
+  `subnets`, is in `Props/C03Step`: `step_cost_perm_dsts`).
 
 The pairing function of the model is positional: `srcs.zip a` is the list of
 (source, chosen candidate) pairs of the assignment `a`.
@@ -730,14 +730,16 @@ theorem stepCands_perm_dsts (cfg : Cfg) (st : State) (t : Int) (dsts dsts' : Lis
     exact List.forall₂_same.mpr (fun s _ c => candsOf_renumber cfg t h h' s c)
   exact h1.trans h2
 
--- FULL (not proved): the per-sub-net optimal costs of a step, as a multiset over
--- `gSrcs (stepCands …) (stepGroups …)`, are invariant under permutations of `dsts`.
+-- FULL (proved since X23 in `Props/C03Step.step_cost_perm_dsts`): the per-sub-net optimal costs of
+-- a step, as a multiset over `gSrcs (stepCands …) (stepGroups …)`, are invariant under
+-- permutations of `dsts`.
 /-- **(e), partial.**  The optimal cost of a linker step over ALL sources of the level together
 (which by `groups_compose_list` is what the per-sub-net optima add up to, plus `B` for every source
 without a real candidate) is invariant under permutations of the destinations `dsts` of the level.
-Missing for the per-sub-net multiset form: equivariance of `Model/Linker.subnets` (the fold of
+The per-sub-net multiset form rests on the equivariance of `Model/Linker.subnets` (the fold of
 `addSource` that merges groups) under a renumbering of the destinations — the groups come out in
-another order, with their sources and destinations listed in another order. -/
+another order, with their destinations listed in another order: `Proofs/SubnetsPerm`,
+`Props/C03Step.step_cost_perm_dsts`. -/
 theorem step_cost_perm_dsts_partial (cfg : Cfg) (st : State) (t : Int) (dsts dsts' : List Pos)
     (hp : dsts.Perm dsts') :
     optCost (stepCands cfg st t dsts') = optCost (stepCands cfg st t dsts) := by
